@@ -644,7 +644,15 @@ def r_gradpoint(A, ctx, scope, rule="R-GRADPOINT"):
                     # fixed-point residual written inline: |w - prox(w - grad / L, ...)|
                     names = names_in(a.value)
                     ws_ = [x for x in names if x in wroles]
-                    gs_ = [x for x in names if x in _grad_like(sf, flow)]
+                    glike = set(_grad_like(sf, flow))
+                    # the name handed as gradient to a sibling score of the same function is a gradient too
+                    # (local gradient builders are closures the role inference does not summarise)
+                    for c2 in ast.walk(f.node):
+                        if isinstance(c2, ast.Call) and isinstance(c2.func, ast.Attribute) \
+                                and c2.func.attr == "subdiff_distance" and len(c2.args) >= 2 \
+                                and isinstance(c2.args[1], ast.Name):
+                            glike.add(c2.args[1].id)
+                    gs_ = [x for x in names if x in glike]
                     if ws_ and gs_ and "prox" in ast.unparse(a.value):
                         score = (ws_[0], gs_[0], a.value)
                 if score is None:
